@@ -483,6 +483,13 @@ void Router::processActions(void)
     bool notPartialTime = !(PartialFeedback && PartialTime);
     bool seenShapeMovesOrDeletes = false;
 
+    // Actions queued as a side effect of processing this list (such as the
+    // endpoint updates of connectors attached to a moved shape) belong to
+    // this pass even when transactions are not in use; processing them
+    // immediately would re-enter this function.
+    const bool consolidateActions = m_consolidate_actions;
+    m_consolidate_actions = true;
+
     m_transaction_start_time = clock();
     m_abort_transaction = false;
 
@@ -652,6 +659,7 @@ void Router::processActions(void)
     }
     // Clear the actionList.
     actionList.clear();
+    m_consolidate_actions = consolidateActions;
 }
 
 bool Router::processTransaction(void)
